@@ -2,6 +2,23 @@
 // (decode(encode(x)) == x) and C10 (decoders are total on untrusted bytes).  UNBOUNDED: every value, every input.
 // Function bodies are pulled from /repo on every run; this file and units/lib0_common/* hold only the ghost
 // interface, the mathematical spec of the formats, the contracts and the proof hints.
+//
+//   units/lib0_common/base.rs      Error stand-in, traits Write/Read/VarInt/SignedVarInt (+ WriteExt/ReadExt), Signed, Cursor, Vec<u8>
+//   units/lib0_common/spec.rs      enc_uint / enc_sint / fixed width / buffers, the spec decoders, bounded + inverse lemmas
+//   units/lib0_common/varint.rs    write_var_*/read_var_*, all VarInt impls, SignedVarInt for i64, lemma_read_inverse/_total
+//   units/lib0_common/examples.rs  concrete encodings (300 -> AC 02, -1 -> 41, ...)
+//
+// Rewrites / slicing (each logged in the evidence):
+//   TS  Read/Write default methods that mention VarInt/SignedVarInt live in blanket-implemented extension traits ReadExt/WriteExt
+//       (Verus rejects the cyclic trait reference Read::read_var<T: VarInt> <-> VarInt::read<R: Read>)
+//   RP  `Some(&b)` in Cursor::read_u8 -> `Some(b)` + `Ok(*b)` (Verus: "ref patterns" unsupported)       [2 per-extract SUBs]
+//   FV  the fields of `Signed` are made pub (the contracts of its public accessors mention them)        [2 per-extract SUBs]
+//   AR  `B: AsRef<[u8]>` in write_buf -> local trait `VxBytes` (std's AsRef is an external trait)       [1 per-extract SUB]
+//   ES  `Error`: sliced stand-in with the same variants, payloads TryReserveError / serde_json::Error opaque
+// Trusted std contracts: i64::unsigned_abs, i64::wrapping_neg (assume_specification, documented behaviour).
+// NOT covered: VarInt for u128; SignedVarInt for isize/i32/i16/i8 and Signed::map (unannotated closure); read_string (unsafe
+// from_utf8_unchecked); read_f32/read_f64/read_i64/read_u64 and write_f32/f64/i64/u64 (copy_from_slice / to_be_bytes);
+// write_string (str: covered in unit `tags` with an uninterpreted utf8()).
 #![allow(unused_imports, unused_variables, unused_mut, dead_code, unused_parens, unused_braces, unused_assignments)]
 use vstd::prelude::*;
 use vstd::slice::*;
